@@ -89,7 +89,7 @@ func (r *fragReader) Read(p []byte) (int, error) {
 		}
 		r.i++
 		if r.first && r.stall > 0 && r.i < 6 {
-			time.Sleep(r.stall)
+			time.Sleep(r.stall + simrt.Skew())
 		}
 		r.first = true
 	}
@@ -163,6 +163,10 @@ func (st *runState) body(ri *simcheck.RunInfo) *simrt.Sim {
 	time.Local = time.FixedZone("sim", s.Cfg.TZOffsetMin*60)
 	sim := simrt.New(s.Sched, s.SchedSeed)
 	sim.SetPreempt(s.Preempt, s.SchedSeed)
+	if s.Preempt > 0 {
+		// every forced switch is a scheduler grant that does not move the clock
+		sim.MaxSpin *= 10
+	}
 	defer sim.Close()
 	st.db = chfake.NewDB(s.Faults, st.nextEv)
 	var sys *System
@@ -178,7 +182,7 @@ func (st *runState) body(ri *simcheck.RunInfo) *simrt.Sim {
 		return sim
 	}
 	startT := time.Now()
-	heal := time.AfterFunc(time.Duration(s.HealMs)*time.Millisecond, st.db.Heal)
+	heal := time.AfterFunc(time.Duration(s.HealMs)*time.Millisecond+simrt.Skew(), st.db.Heal)
 	defer heal.Stop()
 
 	var wg sync.WaitGroup
@@ -246,7 +250,7 @@ func (st *runState) body(ri *simcheck.RunInfo) *simrt.Sim {
 func (st *runState) client(sim *simrt.Sim, sys *System, ci int, c Client) {
 	for _, op := range c.Ops {
 		if op.ThinkMs > 0 {
-			time.Sleep(time.Duration(op.ThinkMs) * time.Millisecond)
+			time.Sleep(time.Duration(op.ThinkMs)*time.Millisecond + simrt.Skew())
 			simrt.Yield("client:after-think")
 		}
 		st.mu.Lock()
